@@ -356,13 +356,16 @@ func c10PeerPart(t *testing.T) explore.Part {
 	isNum := func(n string) bool { return strings.HasPrefix(n, "pn") } // pn<value>, pnlens[...], pnlen-unset
 	mk := func(e explore.Env) ([]c10PeerCfg, string) {
 		var sets [][]int
+		steps := func(n string) bool { return strings.HasPrefix(n, "plan-steps-") } // see c10_planrf_test.go
 		for k := range c10Knobs {
-			sets = append(sets, []int{k})
+			if !steps(c10Knobs[k].Name) {
+				sets = append(sets, []int{k})
+			}
 		}
 		for k1 := 1; k1 < len(c10Knobs); k1++ {
 			for k2 := k1 + 1; k2 < len(c10Knobs); k2++ {
 				n1, n2 := c10Knobs[k1].Name, c10Knobs[k2].Name
-				if c10Contradict(n1, n2) || !(isNum(n1) || isNum(n2)) {
+				if c10Contradict(n1, n2) || !(isNum(n1) || isNum(n2)) || steps(n1) || steps(n2) {
 					continue
 				}
 				// quick: first packet number x length list; thorough: a numbering knob x anything
@@ -385,7 +388,7 @@ func c10PeerPart(t *testing.T) explore.Part {
 		for _, p := range c10Peers {
 			pn = append(pn, p.Name)
 		}
-		return cfgs, fmt.Sprintf("7 built-in fingerprints + zero spec x {every one-knob deviation (%d knobs); every first packet number x every PN length list; in thorough every non-contradictory pair with a numbering knob} = %d knob sets x answering peer {%s} (in-tree server; Retry = address validation forced; Version Negotiation = the client's preferred version is not served); one dial each, all client datagrams until 100 ms after the handshake or 1.5 s", len(c10Knobs), len(sets), strings.Join(pn, ", "))
+		return cfgs, fmt.Sprintf("7 built-in fingerprints + zero spec x {every one-knob deviation (%d knobs, without the %d plan-steps-* knobs); every first packet number x every PN length list; in thorough every non-contradictory pair with a numbering knob} = %d knob sets x answering peer {%s} (in-tree server; Retry = address validation forced; Version Negotiation = the client's preferred version is not served); one dial each, all client datagrams until 100 ms after the handshake or 1.5 s", len(c10Knobs), 8, len(sets), strings.Join(pn, ", "))
 	}
 	return explore.Part{
 		Name: "peer-responses",
